@@ -30,6 +30,12 @@ def run(ctx):
     nr = n // 3
     progs += [T.gen_rand_program(rnd, n + i) for i in range(nr)]
     n += nr
+    # S->C: the bounded program space of TimeModel, enumerated by TLC itself
+    sp = spec_programs(ctx, 'TimeModelExport_thorough.cfg' if thorough else 'TimeModelExport.cfg')
+    for k, p in enumerate(sp):
+        progs.append(dict(p, id=n + k, tail=0, cls='B'))
+    n += len(sp)
+    ctx.cov['spec_enumerated_programs'] = len(sp)
     nrt1 = T.run_mode(ctx, progs, 'nrt', hashseed='0')
     nrt2 = T.run_mode(ctx, progs, 'nrt', hashseed='12345')
     rts = []
@@ -80,6 +86,22 @@ def run(ctx):
     ctx.assumptions += ['programs with logical races (two clocks touching the same routine/tempo at one instant) are excluded by construction',
                         'unseeded randomness is excluded; draws are compared as <seed, index> of CPython random.Random(seed)',
                         'RT runs use virtual time at lock granularity']
+
+
+def spec_programs(ctx, cfg):
+    import json
+    from harness import tlc
+    r = tlc.run('TimeModelExport', cfg, ctx.work, workers=1, timeout=900)
+    if not r.ok:
+        from harness.common import MachineryError
+        raise MachineryError('TimeModelExport failed: %s' % r.output[-1000:])
+    out = []
+    for line in r.output.splitlines():
+        if line.startswith('<<"PROG"'):
+            out.append(json.loads(tlc.parse_value(line)[1]))
+    ctx.cov['states'] += r.distinct
+    ctx.cov['transitions'] += r.generated
+    return out
 
 
 def replay(ctx, rp):
